@@ -24,7 +24,7 @@ from ...signal import PortDir, Signal, Visibility
 from ...slice import Slice
 from ...concat import Concat
 from ...noconn import NoConn
-from ..helpers.resolve_ref_types import update_ref_deps
+from ..helpers.resolve_ref_types import update_ref_deps, connected_ports
 
 # Import the base class
 from .base import ElabPass
@@ -106,7 +106,7 @@ class ResolvePortRefs(ElabPass):
                 group.add(conn)
 
             # And recursively follow its connected ports
-            for connected_port in pref._connected_ports:
+            for connected_port in connected_ports(pref):
                 follow(connected_port, group)
 
         # Collect groups of connected `PortRef`s
